@@ -128,3 +128,89 @@ Proof.
       destruct (find (fun c => String.eqb (eid c) id) (descendants root)) as [x|] eqn:F; [|reflexivity].
       apply find_some in F. destruct F as [Hin He]. apply String.eqb_eq in He. exfalso. exact (H x Hin He).
 Qed.
+
+(* ------------------------------------------------------------------ export = the node's own draw list, moved *)
+Lemma draws_eq_refl l : draws_eq l l.
+Proof. induction l as [|[t p] r IH]; cbn; [exact I|]. split; [apply ts_eq_refl | split; [reflexivity | exact IH]]. Qed.
+Lemma draws_eq_app a a' b b' : draws_eq a a' -> draws_eq b b' -> draws_eq (a ++ b) (a' ++ b').
+Proof.
+  revert a'. induction a as [|[t p] r IH]; intros [|[t' p'] r'] H Hb; cbn in *; try contradiction; [exact Hb|].
+  destruct H as (A & B & C). split; [exact A | split; [exact B | apply IH; assumption]].
+Qed.
+
+Lemma dnode_ind2 (P : dnode -> Prop) :
+  (forall p, P (DLeaf p)) -> (forall t ch, Forall P ch -> P (DGroup t ch)) -> forall n, P n.
+Proof.
+  intros HL HG. fix IH 1. intros [p|t ch]; [apply HL | apply HG].
+  induction ch as [|x r IHr]; constructor; [apply IH | exact IHr].
+Qed.
+
+(* draw lists only depend on the start transform up to equality of the matrices ... *)
+Lemma draws_proper : forall n c c', ts_eq c c' -> draws_eq (draws c n) (draws c' n).
+Proof.
+  induction n as [p|t ch IH] using dnode_ind2; intros c c' Hc; cbn [draws].
+  - cbn. split; [exact Hc | split; [reflexivity | exact I]].
+  - assert (Hct : ts_eq (ts_concat c t) (ts_concat c' t)) by (apply ts_concat_proper; [exact Hc | apply ts_eq_refl]).
+    induction ch as [|x r IHr]; cbn [flat_map]; [exact I|].
+    inversion IH; subst. apply draws_eq_app; [apply H1; exact Hct | apply IHr; assumption].
+Qed.
+
+(* ... and prefixing the start transform by X prefixes every drawn transform by X *)
+Fixpoint prefix_draws (x : ts) (l : list (ts * N)) : list (ts * N) :=
+  match l with [] => [] | (t, p) :: r => (ts_concat x t, p) :: prefix_draws x r end.
+Lemma prefix_draws_app x a b : prefix_draws x (a ++ b) = prefix_draws x a ++ prefix_draws x b.
+Proof. induction a as [|[t p] r IH]; cbn; [reflexivity|]. rewrite IH. reflexivity. Qed.
+
+Lemma draws_prefix : forall n x c, draws_eq (draws (ts_concat x c) n) (prefix_draws x (draws c n)).
+Proof.
+  induction n as [p|t ch IH] using dnode_ind2; intros x c; cbn [draws].
+  - cbn. split; [apply ts_eq_refl | split; [reflexivity | exact I]].
+  - induction ch as [|y r IHr]; cbn [flat_map]; [exact I|].
+    inversion IH; subst. rewrite prefix_draws_app. apply draws_eq_app; [|apply IHr; assumption].
+    (* draws ((x*c)*t) y  ~  draws (x*(c*t)) y  ~  prefix x (draws (c*t) y) *)
+    assert (E1 := draws_proper y _ _ (ts_concat_assoc x c t)).
+    assert (E2 := H1 x (ts_concat c t)).
+    clear - E1 E2. revert E1 E2.
+    generalize (draws (ts_concat (ts_concat x c) t) y) (draws (ts_concat x (ts_concat c t)) y) (prefix_draws x (draws (ts_concat c t) y)).
+    intros l1. induction l1 as [|[t1 p1] r1 IHl]; intros [|[t2 p2] r2] [|[t3 p3] r3] A B; cbn in *; try contradiction; [exact I|].
+    destruct A as (A1 & A2 & A3), B as (B1 & B2 & B3). split; [eapply ts_eq_trans; eassumption | split; [congruence | eapply IHl; eassumption]].
+Qed.
+
+(* Refinement: when parent_ts is the product of the ancestors' transforms (C12_abs_transform_product + export_transform's
+   parent_ts), the export draws exactly the draw list of the node in the full rendering - same leaves, same order - with
+   every transform prefixed by  tr * translate(-layer box origin): the export is the node's part of the full rendering seen
+   through the window of its layer box, up to the rasteriser. *)
+Theorem export_draws_refines tr b parent anc n :
+  ts_eq parent anc ->
+  draws_eq (export_draws tr b parent n)
+           (prefix_draws (ts_concat tr (from_translate (- bx0 b) (- by0 b))) (full_draws anc n)).
+Proof.
+  intros Hp. unfold export_draws, full_draws.
+  set (w := ts_concat tr (from_translate (- bx0 b) (- by0 b))).
+  assert (E1 := draws_proper n (ts_concat w parent) (ts_concat w anc) (ts_concat_proper _ _ _ _ (ts_eq_refl w) Hp)).
+  assert (E2 := draws_prefix n w anc).
+  revert E1 E2.
+  generalize (draws (ts_concat w parent) n) (draws (ts_concat w anc) n) (prefix_draws w (draws anc n)).
+  intros l1. induction l1 as [|[t1 p1] r1 IHl]; intros [|[t2 p2] r2] [|[t3 p3] r3] A B; cbn in *; try contradiction; [exact I|].
+  destruct A as (A1 & A2 & A3), B as (B1 & B2 & B3). split; [eapply ts_eq_trans; eassumption | split; [congruence | eapply IHl; eassumption]].
+Qed.
+
+(* the transform render_node reconstructs for the ancestors IS their product when abs_transform is the product *)
+Lemma ts_invert_right t i : ts_invert t = Some i -> ts_eq (ts_concat t i) ts_identity.
+Proof.
+  unfold ts_invert. destruct (Qeqb (e_det t) 0) eqn:E; [discriminate|]. intros H. inversion H; subst; clear H.
+  assert (Hd : ~ e_det t == 0). { intros Hd. apply Qeqb_true in Hd. congruence. }
+  unfold e_det in *. unfold ts_eq, ts_concat, from_row, ts_identity. cbn. repeat split; field; exact Hd.
+Qed.
+
+Theorem parent_ts_is_ancestors n anc :
+  match n with
+  | EGroup _ t a _ _ => ts_invert t <> None /\ ts_eq a (ts_concat anc t)
+  | ELeaf _ a _ => ts_eq a anc
+  end -> ts_eq (parent_ts n) anc.
+Proof.
+  destruct n as [i t a l ch|i a b]; cbn [parent_ts]; [|tauto].
+  intros [Hinv Ha]. destruct (ts_invert t) as [inv|] eqn:Ei; [|contradiction Hinv; reflexivity].
+  eapply ts_eq_trans; [apply ts_concat_proper; [exact Ha | apply ts_eq_refl]|].
+  eapply ts_eq_trans; [apply ts_concat_assoc|]. apply ts_concat_id_r. apply ts_invert_right. exact Ei.
+Qed.
